@@ -179,6 +179,8 @@ def run(chk, fb, tier):
     C06.rule_empty_arms(chk, fb, "C04.b.empty")
     symmetry.rule_enum_tables(chk, fb, "C04.b.enums")
     symmetry.rule_omitted_defaults(chk, fb, "C04.b.defaults")
+    symmetry.rule_attr_fields(chk, fb, "C04.b.fields")
+    symmetry.rule_parsed_as_stored(chk, fb, "C04.b.parsed")
     from props import C02
 
     C02.rule_quote_inverse(chk, fb, "C04.a.quote")
